@@ -20,6 +20,7 @@ import (
 	"verif/mc/gen/fam"
 	"verif/mc/gen/ir"
 	"verif/mc/gen/ircmp"
+	"verif/mc/props/scalekit"
 )
 
 type Input struct {
@@ -30,7 +31,8 @@ type Input struct {
 	Victim  string      `json:"mutated_instance,omitempty"`
 	Others  []string    `json:"other_instances,omitempty"`
 	// expectation for phase 1 is recomputed from the generator on replay via Index
-	Index int `json:"index"`
+	Index int            `json:"index"`
+	Scale *scalekit.Case `json:"scale,omitempty"`
 }
 
 type fail struct {
@@ -365,10 +367,14 @@ func shards(tier string) []string {
 	for i := 0; i < nShards; i++ {
 		out = append(out, fmt.Sprintf("uses/%d", i))
 	}
-	return out
+	return append(out, scalekit.ShardNames()...)
 }
 
 func run(c *core.Ctx) {
+	if strings.HasPrefix(c.Shard, "scale/") {
+		scalekit.Run(c, c.Shard, scaleCases(c.Tier), checkScale, func(cs scalekit.Case) any { return Input{Scale: &cs} })
+		return
+	}
 	var shard int
 	fmt.Sscanf(c.Shard, "uses/%d", &shard)
 	c.Res.Bound = "grouping g (10 bodies incl. nested uses to depth 3, list, leaf-list, choice, action, local typedef, default, anydata) defined at 4 sites (top of a, inside a container of a, top of submodule as, top of b) x all pairs of 10 using sites (containers of a, b, as; config-false container; list; case; rpc input; rpc output; notification; nested container) x type spelled string / shadowed typedef t; 2 load orders; independence: each instance mutated by 7 kinds of augment/deviation from a further module, 2 load positions"
@@ -427,6 +433,10 @@ func replay(tier string, raw json.RawMessage) (bool, string, string) {
 	var in Input
 	if err := json.Unmarshal(raw, &in); err != nil {
 		return false, "", err.Error()
+	}
+	if in.Scale != nil {
+		v := checkScale(*in.Scale)
+		return v.Fp != "", "scale:" + v.Fp, fmt.Sprintf("expected %s\nobserved %s", v.Exp, v.Obs)
 	}
 	var f *fail
 	if in.Mutant2 != nil {
